@@ -196,8 +196,8 @@ class Model(object):
         self.eval_num[k] = eval_num
         self.factorisation_current = False
 
-        if allow_kopt_update and self.objval[k] < self.objopt():
-            self.kopt = k
+        if allow_kopt_update and (self.objval[k] < self.objopt() or (np.isnan(self.objopt()) and not np.isnan(self.objval[k]))):
+            self.kopt = k  # strictly better, or the first number after a NaN incumbent
         return
 
     def swap_points(self, k1, k2):
@@ -239,7 +239,7 @@ class Model(object):
         self.num_pts += 1  # make sure npt is updated
         self.npt_so_far += 1
 
-        if obj < self.objopt():
+        if obj < self.objopt() or (np.isnan(self.objopt()) and not np.isnan(obj)):
             self.kopt = self.npt() - 1
 
         self.factorisation_current = False
